@@ -133,8 +133,11 @@ func (p *propC05) Gen(idx int) *Scenario {
 	}
 	sc := &Scenario{V: 1, Property: "C05", Engine: "pipe", Seed: p.seed, Index: idx,
 		Tasks: []Task{{ID: 0, Call: "Encode", File: mf, Arch: arch}}}
-	if idx%16 == 7 {
+	switch idx % 16 {
+	case 7:
 		sc.Tasks[0].Sink = "buffer" // a *bytes.Buffer instead of the simulated writer
+	case 11, 15:
+		sc.Tasks[0].Sink = "buffer+" // one that already holds bytes: Encode appends
 	}
 	if r.Chance(1, 8) {
 		// a failing Encode first (sink that fails at its n-th Write, or a File with a
@@ -475,7 +478,7 @@ func (p *propC06) Assumptions() []string {
 	}
 }
 func (p *propC06) ProbeNames() []string {
-	return []string{"local time with offset", "string at max length", "array at profile length", "component source set", "pointer slot message", "big endian", "plan not full"}
+	return []string{"local time with offset", "string at max length", "array at profile length", "component source set", "pointer slot message", "big endian", "plan not full", "encoded behind earlier bytes of a bytes.Buffer"}
 }
 
 func (p *propC06) Prepare(seed uint64, tier string) int {
@@ -522,7 +525,8 @@ func (p *propC06) Gen(idx int) *Scenario {
 	}
 	return &Scenario{V: 1, Property: "C06", Engine: "pipe", Seed: p.seed, Index: idx,
 		Media: []Medium{{ID: "m0", Encode: &EncodeSpec{File: mf, Arch: arch}}},
-		Tasks: []Task{{ID: 0, Call: "Encode", File: mf, Arch: arch}, {ID: 1, Call: "Decode", In: "m0", Read: genPlan(r, false, true)}}}
+		// sink: the simulated writer, an empty *bytes.Buffer, or one that already holds bytes
+		Tasks: []Task{{ID: 0, Call: "Encode", File: mf, Arch: arch, Sink: []string{"", "", "", "", "", "buffer", "buffer+", "buffer+"}[idx%8]}, {ID: 1, Call: "Decode", In: "m0", Read: genPlan(r, false, true)}}}
 }
 
 func (p *propC06) Check(sc *Scenario, st *Stats) []Violation {
@@ -569,6 +573,7 @@ func (p *propC06) Check(sc *Scenario, st *Stats) []Violation {
 	arch := sc.Tasks[0].Arch
 	st.ProbeIf(arch == "be", "big endian")
 	st.ProbeIf(pc != "full", "plan not full")
+	st.ProbeIf(sc.Tasks[0].Sink == "buffer+", "encoded behind earlier bytes of a bytes.Buffer")
 	want := modelMsgsOfFile(mf)
 	hs := hostsOf(mf.Type)
 	for _, m := range want {
